@@ -44,6 +44,8 @@ m = {
         {"name": "E2 bounded-exhaustive input enumeration", "path": "checks/",
          "serves_properties": sorted(k for k, c in CHECKS.items() if "E2" in c.get("engine", "")),
          "kind_free_text": "complete enumeration of a small input scope, each input executed on the real code and compared with an independent oracle"},
+        {"name": "E3 preemption-bounded scheduler", "path": "engine/sched.hpp", "serves_properties": ["C15"],
+         "kind_free_text": "cooperative futex hand-off scheduler whose scheduling points are the replaced global operator new/delete; iterative context bounding (0, 1, 2 preemptions), every schedule in a forked child under a watchdog, compared with the sequential result; a free-running ThreadSanitizer build of the same bodies as a separate detector"},
     ],
     "checks": checks,
     "not_applicable": na,
